@@ -293,6 +293,7 @@ type env struct {
 	newPartSinceQ            bool
 	compactedSinceQ          bool
 	garbage                  bool
+	pathSeq                  int
 	sqlLog                   *os.File
 	tCopy, tXform, tRun      time.Duration
 	minDate, defStart, soAdd int64
@@ -506,7 +507,7 @@ func (e *env) rangeStr(sqlText string) (string, *pruning.TimeRange) {
 	if tr == nil {
 		return "none", nil
 	}
-	return bigNs(tr.Start) + "," + bigNs(tr.End), tr
+	return bigNs(tr.Start) + "," + bigNs(tr.End) + "," + fmt.Sprint(b01(tr.EndInclusive)), tr
 }
 
 var (
@@ -1398,8 +1399,10 @@ func hashStr(h uint64, s string) uint64 {
 
 func (e *env) opPaths(s, en time.Time) {
 	base := "/data"
-	ps := e.pr.GeneratePartitionPaths(context.Background(), base, "d", "m", &pruning.TimeRange{Start: s, End: en})
-	op := fmt.Sprintf("paths %s %s", bigNs(s), bigNs(en))
+	e.pathSeq++
+	incl := e.pathSeq%3 == 0 // every third range with TimeRange.EndInclusive
+	ps := e.pr.GeneratePartitionPaths(context.Background(), base, "d", "m", &pruning.TimeRange{Start: s, End: en, EndInclusive: incl})
+	op := fmt.Sprintf("paths %s %s %d", bigNs(s), bigNs(en), b01(incl))
 	if ps == nil {
 		e.c.Op(op, "nil")
 		e.c.Tag("paths:nil")
